@@ -59,11 +59,18 @@ Proof.
   destruct (_ =? 0).
   - rewrite IH. reflexivity.
   - rewrite IH. destruct (_ || _)%bool; [|reflexivity].
-    pose proof (rn_millis64 r) as M. destruct (millis64 r) as [rc t]. cbn [fst] in M. cbn [rn with_devinfo_changed with_devx]. exact M.
+    pose proof (rn_millis64 r) as M. destruct (millis64 r) as [rc t]. cbn [fst] in M.
+    destruct (_ || _)%bool; cbn [rn with_devinfo_changed with_devx]; exact M.
+Qed.
+Lemma rn_resync_heartbeats : forall k r i, rn (resync_heartbeats k r i) = rn r.
+Proof.
+  induction k as [|k IH]; intros r i; cbn [resync_heartbeats]; [reflexivity|]. rewrite IH.
+  destruct (_ =? ss_disabled); [reflexivity|]. destruct (_ =? 0); [reflexivity|].
+  pose proof (rn_millis64 r) as M. destruct (millis64 r) as [rc t]. cbn [fst] in M. cbn [rn with_devx]. exact M.
 Qed.
 
 Ltac rnsimp := cbn [rn with_rn with_slots with_devx with_rxq with_sync with_devinfo_changed with_clk set_oob fst snd] in *;
-               rewrite ?rn_chk_dev, ?rn_chk_slot, ?rn_set_slot, ?rn_set_pending, ?rn_mark_ready, ?rn_millis64, ?rn_set_heartbeat_all in *.
+               rewrite ?rn_chk_dev, ?rn_chk_slot, ?rn_set_slot, ?rn_set_pending, ?rn_mark_ready, ?rn_millis64, ?rn_resync_heartbeats, ?rn_set_heartbeat_all in *.
 
 (* ---------- silent changes of the node ---------- *)
 Lemma qc_set_dev_tp r i tp t s : quiet_change (rn r) (rn (set_dev_tp r i tp t s)).
@@ -332,7 +339,8 @@ Proof.
     destruct ad; [|injection H as <- <-; exact A].
     destruct (rsend r0 _ i) as [[r1 ev1] ok1] eqn:E1. injection H as <- <-. eapply rsend_nr; [exact E1|exact Hi|exact A]. }
   destruct (match c_iso_handler (r_cfg r0) with Some acc => _ | None => _ end) as [[|]|].
-  - injection H as <- <-. eapply NR_after; [exact A|apply NR_note; reflexivity].
+  - apply pair_equal_spec in H. destruct H as [H1 H2]. rewrite <- H1, <- H2.
+    apply (NR_after (rn r) (rn r0) _ (rn r0) A). apply (NR_note (rn r0) (EvNote (1000000 + rpgn)) eq_refl).
   - destruct ad; [|injection H as <- <-; exact A].
     destruct (rsend r0 _ i) as [[r1 ev1] ok1] eqn:E1. injection H as <- <-. eapply rsend_nr; [exact E1|exact Hi|exact A].
   - injection H as <- <-. exact A.
@@ -453,7 +461,7 @@ Proof.
     eapply NR_then; [exact A0|apply NR_quiet, qc_with_open; intros C; contradiction].
   - destruct (sched_is_time _ _ _).
     + destruct (start_claim_all _ _ 0) as [ra eva] eqn:ES. destruct (millis64 ra) as [rc ts] eqn:M. injection H as <- <- <-.
-      aux_facts. rewrite rn_set_heartbeat_all. cbn [rn with_sync]. rewrite F.
+      aux_facts. rewrite rn_resync_heartbeats, rn_set_heartbeat_all. cbn [rn with_sync]. rewrite F.
       eapply NR_trans; [|apply NR_note; reflexivity].
       eapply NR_after; [exact A0|]. eapply NR_after; [apply NR_quiet, (qc_with_open r0 3 (r_open_sched r0)); reflexivity|].
       eapply start_claim_all_nr; [exact ES|lia].
